@@ -114,7 +114,7 @@ def _check_opt_trivia(option: str, value: object) -> str | None:
     return "one of or 0/1/2-tuple of (bool, 'all', 'block', 'none', 'line', int)"
 
 def _check_opt_pep8space(option: str, value: object) -> str | None:
-    return 'a bool or 1' if value != True and value is not False else None  # noqa: E712
+    return 'a bool or 1' if not isinstance(value, bool) and not (isinstance(value, int) and value == 1) else None  # not 1.0
 
 def _check_opt_docstr(option: str, value: object) -> str | None:
     return "a bool or 'strict'" if value != 'strict' and not isinstance(value, bool) else None
